@@ -367,6 +367,13 @@ func Symlink(oldname, newname string, site string) error {
 	return os.Symlink(oldname, newname)
 }
 
+func Link(oldname, newname string, site string) error {
+	if err := pre("link", newname, "fs-error-write", site); err != nil {
+		return deadOK(err)
+	}
+	return os.Link(oldname, newname)
+}
+
 func Chmod(name string, mode os.FileMode, site string) error {
 	if err := pre("chmod", name, "fs-error-write", site); err != nil {
 		return deadOK(err)
